@@ -177,7 +177,7 @@ func (g *G) plainStmt(sc *scope, depth int) []string {
 }
 
 func (g *G) tryPlain(sc *scope, depth int) []string {
-	k := g.pick("stmtkind", 27)
+	k := g.pick("stmtkind", 28)
 	switch k {
 	case 0, 1, 2:
 		return g.defineStmt(sc, depth)
@@ -240,6 +240,10 @@ func (g *G) tryPlain(sc *scope, depth int) []string {
 			return nil
 		}
 		return g.nestedFieldStore(sc, depth)
+	case 27:
+		if !g.cfg.NoClosures {
+			return g.methodValueStmt(sc)
+		}
 	case 23:
 		if !g.cfg.NoBareBlocks && depth > 0 {
 			g.label("bare-block")
@@ -690,22 +694,41 @@ func (g *G) multiAssign(sc *scope, depth int) []string {
 		return nil
 	}
 	h := cands[g.pick("macallee", len(cands))]
-	var lhs []string
+	for _, r := range h.Results {
+		if r.K == KSlice {
+			// mutable slice variables only ever hold fresh slices (append linearity)
+			return nil
+		}
+	}
+	var lhs, pre []string
 	usedVars := map[string]bool{}
 	for _, r := range h.Results {
 		vs := g.mutableVars(sc, func(v *Var) bool { return v.T.Same(r) && !v.LoopVar && !usedVars[v.Name] && v.T.K != KSlice })
-		if len(vs) == 0 {
-			return nil
+		if len(vs) == 0 || g.chance("mafreshvar", 25) {
+			// no assignable variable of that type yet: declare one (zero value) right before
+			// (a name that shadows nothing: the call's arguments are rendered afterwards)
+			g.ctr++
+			name := fmt.Sprintf("ma%d", g.ctr)
+			g.fn.names[name] = true
+			nv := &Var{Name: name, T: r, Mutable: true}
+			pre = append(pre, "var "+name+" "+r.Go())
+			g.declare(sc, nv)
+			usedVars[name] = true
+			lhs = append(lhs, name)
+			continue
 		}
 		v := vs[g.pick("mavar", len(vs))]
 		usedVars[v.Name] = true
 		if v.T.K == KPtr || v.T.K == KMap {
 			v.NonNil = false
 		}
+		if v.T.K == KSlice {
+			v.MinLen = 0
+		}
 		lhs = append(lhs, v.Name)
 	}
 	g.label("multi-assign")
-	return []string{strings.Join(lhs, ", ") + " = " + g.renderCall(sc, h, nil, depth)}
+	return append(pre, strings.Join(lhs, ", ")+" = "+g.renderCall(sc, h, nil, depth))
 }
 
 func (g *G) mapCommaOk(sc *scope) []string {
@@ -928,15 +951,17 @@ func (g *G) copyStmt(sc *scope) []string {
 	}
 	d := dsts[g.pick("copydst", len(dsts))]
 	srcs := g.varsOf(sc, func(v *Var) bool { return v != d && v.T.Same(d.T) && !v.Mutable })
-	if len(srcs) == 0 {
-		return nil
+	srcExpr := ""
+	if len(srcs) == 0 || g.chance("copyfresh", 30) {
+		srcExpr, _ = g.freshSlice(sc, d.T, 1)
+	} else {
+		srcExpr = use(srcs[g.pick("copysrc", len(srcs))])
 	}
-	src := srcs[g.pick("copysrc", len(srcs))]
 	g.label("copy")
 	name := g.freshName(sc, "copyn")
 	// copy returns an int: observe it through a conversion
 	g.declare(sc, &Var{Name: name, T: TU64})
-	return []string{fmt.Sprintf("%s := uint64(copy(%s, %s))", name, use(d), use(src))}
+	return []string{fmt.Sprintf("%s := uint64(copy(%s, %s))", name, use(d), srcExpr)}
 }
 
 // machineStmt: MapClear, Assume(true-by-construction), Assert(true-by-construction), Linearize.
@@ -1019,4 +1044,109 @@ func castLit(t *Ty, e string) string {
 		return map[Kind]string{KU64: "uint64", KU32: "uint32", KU8: "byte"}[t.K] + "(" + e + ")"
 	}
 	return e
+}
+
+// methodValueStmt: f := x.m for a method with at least one parameter (a partial application in
+// GooseLang; parameter-less method values are the known finding methodValue). The receiver is
+// evaluated — and, for value receivers, copied — here, not when f is called, so later stores to x
+// must not be seen through f (seeded change C01-5).
+func (g *G) methodValueStmt(sc *scope) []string {
+	type cand struct {
+		v *Var
+		m *FuncSig
+	}
+	var cands []cand
+	for _, v := range sc.all() {
+		var sd *StructDef
+		isPtr := false
+		if v.T != nil && v.T.K == KStruct {
+			sd = v.T.S
+		} else if v.T != nil && v.T.K == KPtr && v.T.Elem.K == KStruct && v.NonNil {
+			sd, isPtr = v.T.Elem.S, true
+		}
+		if sd == nil || v.Closure != nil || v.Big {
+			continue
+		}
+		for _, m := range g.methods[sd] {
+			if (m.Recv.K == KPtr) == isPtr && len(m.Params) >= 2 && m != g.fn.sig && (!g.fn.pure || m.Pure) {
+				cands = append(cands, cand{v, m})
+			}
+		}
+	}
+	if len(cands) == 0 {
+		return nil
+	}
+	c := cands[g.pick("mvcand", len(cands))]
+	g.ctr++
+	name := fmt.Sprintf("mv%d", g.ctr)
+	g.fn.names[name] = true
+	g.label("method-value")
+	mv := &Var{Name: name, Closure: &FuncSig{Name: name, Params: c.m.Params[1:], Results: c.m.Results, Pure: c.m.Pure}, T: &Ty{K: -1}}
+	out := []string{name + " := " + use(c.v) + "." + c.m.Name}
+	// change what the receiver expression denotes before the value is called …
+	sd := c.v.T.S
+	if c.v.T.K == KPtr {
+		sd = c.v.T.Elem.S
+	}
+	if g.chance("mvmutate", 60) && !g.fn.pure {
+		switch {
+		case c.v.T.K == KPtr && c.v.Mutable && !c.v.LoopVar:
+			g.label("method-value-receiver-reassigned")
+			out = append(out, c.v.Name+" = &"+g.structLit(sc, c.v.T.Elem, 1))
+		case len(sd.Fields) > 0 && (c.v.T.K == KPtr || c.v.Mutable):
+			// store to every scalar field: whichever the method reads has changed
+			stored := false
+			for _, f := range sd.Fields {
+				if f.T.Scalar() {
+					out = append(out, c.v.Name+"."+f.Name+" = "+g.expr(sc, f.T, 1))
+					stored = true
+				}
+			}
+			if stored {
+				g.label("method-value-receiver-field-stored")
+				if c.v.T.K == KStruct {
+					g.label("method-value-copied-receiver-changed")
+				}
+			}
+		}
+	}
+	g.declare(sc, mv)
+	// … and call it right away, keeping the results for later use
+	if len(c.m.Results) >= 1 && g.chance("mvcall", 70) {
+		var names []string
+		call := g.renderCall(sc, mv.Closure, mv, 1)
+		for _, r := range c.m.Results {
+			g.ctr++
+			n := fmt.Sprintf("mvr%d", g.ctr)
+			g.fn.names[n] = true
+			names = append(names, n)
+			g.declare(sc, &Var{Name: n, T: r})
+		}
+		out = append(out, strings.Join(names, ", ")+" := "+call)
+		// fold the results into assignable variables so that they reach the function's results
+		if !g.fn.pure {
+			for i, r := range c.m.Results {
+				vs := g.mutableVars(sc, func(v *Var) bool { return v.T != nil && v.T.Same(r) && !v.LoopVar && v.T.Scalar() })
+				if len(vs) == 0 {
+					continue
+				}
+				v := vs[g.pick("mvfold", len(vs))]
+				switch {
+				case r.IsInt():
+					out = append(out, v.Name+" = "+v.Name+" ^ "+names[i])
+				case r.K == KBool:
+					out = append(out, v.Name+" = "+v.Name+" != "+names[i])
+				case r.K == KStr:
+					out = append(out, v.Name+" = "+v.Name+" + "+names[i])
+				}
+				v.Used = true
+				for _, nv := range sc.vars {
+					if nv.Name == names[i] {
+						nv.Used = true
+					}
+				}
+			}
+		}
+	}
+	return out
 }
